@@ -74,6 +74,19 @@ CLAIMED = {
         "not modelled -- their exception fence is exercised by the oracle only; non-ASCII input only by the oracle.",
         "6 (C01)",
     ),
+    "C02": (
+        "Coq proof (parse/print identities for every accepted text and every well-formed frame, through a verified regex matcher and a column-peeling lemma decided on the regenerated COMMAND_REGEX) + correspondence on Command/Packet/_from_attrs and on the real packet logger + replay",
+        "7 theorems in coq/props/C02.v about coq/model/M_Frame.v: print(parse s) = s for EVERY string the frame constructor accepts, "
+        "parse(print f) = f for EVERY structurally valid frame, length field = byte count, _from_attrs preserves all fields; the fixed "
+        "slice offsets are justified by a computed obligation on the regenerated COMMAND_REGEX (columns 2/3/9/9/9/4/3 separated by "
+        "single spaces). Tie: Command(frame), Packet.from_port, Command._from_attrs on generated frames/attributes vs the model "
+        "(printed text, every field, src/dst, outcome class); log lines written by the real packet logger and read back the way "
+        "FileTransport does vs the model's replay_line. Oracle: str(Command(f)) == f, len, Packet/Command agreement, CLI short "
+        "forms, valid-by-construction frames never rejected, logged packets read back equal with the SAME timestamp.",
+        "Trusted: Coq kernel, translator, harness. The log-line theorem is not stated in Coq (timestamp/partition text algebra): the "
+        "log round trip is decided by correspondence + oracle on the real logger (TZ=UTC); from_cli is oracle-only.",
+        "6 (C02)",
+    ),
 }
 
 NOT_YET = "not claimed yet: the Coq model and correspondence harness for this property are not built in this revision (planned in DESIGN.md section 6)"
